@@ -542,6 +542,13 @@ def build_lf(prob, tree_newick=None, aln=None, sm=None):
     if prob.get("expm"):
         lfkw["expm"] = prob["expm"]
     lf = sm.make_likelihood_function(tree, **lfkw)
+    if prob.get("early_queries"):
+        # queries made before any alignment was given are refused; they must leave nothing behind
+        for q in (lambda: lf.reconstruct_ancestral_seqs(), lambda: lf.likely_ancestral_seqs(), lambda: lf.lnL, lambda: lf.get_full_length_likelihoods(), lambda: lf.get_bin_probs()):
+            try:
+                q()
+            except Exception:  # noqa: BLE001 - refusal expected
+                pass
     lf.set_alignment(make_aligned_seqs(aln or prob["aln"], moltype=moltype_of(model)))
     if prob.get("mprobs") is not None:
         if "positions" in prob["mprobs"]:
